@@ -230,6 +230,7 @@ Proof. unfold enumerate. generalize 0. induction l; intros s; cbn; [reflexivity 
 Lemma stage5_cf c r : cf_elem (stage5 c r) = cf_elem r /\ cf_adj (stage5 c r) = cf_adj r.
 Proof.
   unfold stage5, stage2, stage1. rewrite gcc_cf_elem, gfc_cf_elem, pe_cf_elem, gcc_cf_adj, gfc_cf_adj, pe_cf_adj.
+  unfold prepare_vertices; cbn [cf_elem cf_adj].
   destruct (snd c), (fst c); rewrite ?cef_cf_elem, ?cef_cf_adj, ?cfc_cf_elem, ?cfc_cf_adj; auto.
 Qed.
 
